@@ -27,7 +27,11 @@ def harness_tags(F):
         a = e.int('args_len', lo=0)
         n = e.int('annots_len', lo=0)
         r = e.call(F.get_tag, [a, n])
-        e.check('get_tag::returns.one_byte', z3.BoolVal(isinstance(r, SBytes) and r.n == 1))
+        ok = isinstance(r, (SBytes, bytes)) and (len(r) if isinstance(r, bytes) else r.n) == 1
+        e.check('get_tag::returns.one_byte', z3.BoolVal(bool(ok)))
+        if not ok:
+            return
+        r = e.as_sbytes(r)
         t = r.at(0)
         spec = z3.If(a.e >= 3, 9, 3 + 2 * a.e + z3.If(n.e > 0, 1, 0))
         e.check('get_tag::ensures.grammar_tag', t == spec)
